@@ -101,6 +101,8 @@ def instrument(p):
             script.append({"raised": True, **snapshot_flags(p)})
             raise
         e = {"b": bool(b is True), **snapshot_flags(p)}
+        # the collect() function narrows the returned line to these header indexes (applied by the caller of the matcher)
+        e["limit"] = list(p.limit_collection_to or [])
         script.append(e)
         return b
 
